@@ -3121,3 +3121,29 @@ mod browse_tests {
         );
     }
 }
+
+#[cfg(feature = "verif")]
+impl Transport {
+    /// Verification hook: the occupancy of the RX and TX packet slots.
+    pub fn verif_slots(&self) -> (crate::verif::SlotSnap, crate::verif::SlotSnap) {
+        use crate::verif::SlotSnap;
+
+        fn peek<const N: usize>(slot: &IfMutex<Packet<N>>) -> SlotSnap {
+            let mut snap = SlotSnap::Locked;
+
+            let _ = slot.try_lock_if(|packet| {
+                snap = if packet.buf.is_empty() {
+                    SlotSnap::Empty
+                } else {
+                    SlotSnap::Full
+                };
+
+                false
+            });
+
+            snap
+        }
+
+        (peek(&self.rx), peek(&self.tx))
+    }
+}
